@@ -73,17 +73,41 @@ fn transcript(text: &str, src: &str, globals: &[(String, tree_sitter_graph::grap
                 let cfg = RunCfg { lazy, globals: globals.to_vec(), outer_globals: vec![], debug: None, cancel_at: None };
                 let ir = run_impl(&file, &tree, src, &info, &cfg);
                 out.push_str(&format!("|{}:{}:{:x}", lazy, ir.outcome.to_text(), hash_of(&ir.graph.map(|g| g.to_text()))));
+                // the rendered message too (statement texts, values): it must not depend on what ran before
+                out.push_str(&format!(":msg={}", exec_message(&file, &tree, src, globals, lazy)));
             }
             out
         }
     }
 }
 
-/// `tsg-verif c12-child <seed> <n>`: prints one transcript line per case
-pub fn child(seed: u64, n: usize) {
+fn exec_message(file: &tree_sitter_graph::ast::File, tree: &tree_sitter::Tree, src: &str, globals: &[(String, tree_sitter_graph::graph::Value)], lazy: bool) -> String {
+    let r = std::panic::catch_unwind(std::panic::AssertUnwindSafe(|| {
+        let functions = tree_sitter_graph::functions::Functions::stdlib();
+        let mut gl = tree_sitter_graph::Variables::new();
+        for (k, v) in globals {
+            let _ = gl.add(tree_sitter_graph::Identifier::from(k.as_str()), v.clone());
+        }
+        let config = tree_sitter_graph::ExecutionConfig::new(&functions, &gl).lazy(lazy);
+        match file.execute(tree, src, &config, &tree_sitter_graph::NoCancellation) {
+            Ok(_) => "ok".to_string(),
+            Err(e) => format!("{}", e),
+        }
+    }));
+    format!("{:x}", hash_of(&r.unwrap_or_else(|_| "panic".to_string())))
+}
+
+/// `tsg-verif c12-child <seed> <n> [only]`: prints one transcript line per case (or only that of case `only`,
+/// run alone in this fresh process)
+pub fn child(seed: u64, n: usize, only: Option<usize>) {
     let root = Rng::new(seed);
     let pool = pool();
     for pi in 0..n {
+        if let Some(k) = only {
+            if pi != k {
+                continue;
+            }
+        }
         let mut r = root.fork(pi as u64);
         let opts = opts_for(pi, &mut r);
         let program = gen_program(&mut r, &pool, &opts);
@@ -111,6 +135,20 @@ pub fn run(rep: &mut Report, tier: &str, seed: u64) {
         }
         rep.count_n("child-processes", procs);
         let first: Vec<&str> = outputs[0].lines().collect();
+        // isolation: a case run ALONE in a fresh process gives the line it gave in sequence (no state carried from
+        // one loaded file or execution to the next)
+        let failing: Vec<usize> = first.iter().enumerate().filter(|(_, l)| l.contains("(err ")).map(|(i, _)| i).collect();
+        let sample: Vec<usize> = failing.iter().cloned().step_by((failing.len() / (if tier == "thorough" { 60 } else { 12 })).max(1)).collect();
+        for i in sample {
+            let o = Command::new(&exe).args(["c12-child", &seed.to_string(), &n.to_string(), &i.to_string()]).stderr(std::process::Stdio::null()).output().expect("spawn child");
+            let alone = String::from_utf8_lossy(&o.stdout).to_string();
+            rep.count("isolated-reruns");
+            if alone.trim_end() != first[i] {
+                rep.fail("direct", "C12 a case run alone in a fresh process differs from the same case run after others", true,
+                    json!({"seed": seed, "case_index": i, "in_sequence": first[i], "alone": alone.trim_end(),
+                           "how_to_replay": format!("tsg-verif c12-child {} {} {}   vs line {} of   tsg-verif c12-child {} {}", seed, n, i, i + 1, seed, n)}));
+            }
+        }
         rep.count_n("transcript-lines-per-process", first.len());
         for (k, o) in outputs.iter().enumerate().skip(1) {
             let lines: Vec<&str> = o.lines().collect();
